@@ -491,7 +491,7 @@ def check_cases(ctx, cases, impl, model):
 
 
 def run(ctx):
-    n = 600 if ctx.quick else 10000
+    n = 600 if ctx.quick else 30000
     ctx.coverage["rule"] = (
         "cases from one seeded PRNG (case i replays from (seed, i)): a generated multi-module program (functions, methods, closures, "
         "recursion, a shared trampoline, try/except re-raising with `from e` / implicit context / `from None` / a handler that calls a "
